@@ -783,6 +783,19 @@ func reifyDuration(
 	var d time.Duration
 	var err error
 
+	// a setting produced by variable expansion converts like the value it stands for
+	for {
+		dyn, ok := val.(*cfgDynamic)
+		if !ok {
+			break
+		}
+		resolved, err := dyn.getValue(opts.opts)
+		if err != nil {
+			return reflect.Value{}, raiseInvalidDuration(val, err)
+		}
+		val = resolved
+	}
+
 	// a number of seconds must fit into int64 nanoseconds
 	const maxSec = int64(math.MaxInt64 / int64(time.Second))
 	switch v := val.(type) {
